@@ -25,6 +25,7 @@ use std::sync::atomic::{AtomicU64, Ordering};
 use std::sync::Arc;
 
 thread_local! {
+    static MODEL_OFF: std::cell::Cell<bool> = const { std::cell::Cell::new(false) };
     static IS_VARIANT: std::cell::Cell<bool> = const { std::cell::Cell::new(false) };
     static PROGRESS: RefCell<Option<Arc<AtomicU64>>> = const { RefCell::new(None) };
 }
@@ -357,6 +358,7 @@ struct Session<'d> {
     /// space may hold unbroken cycles, on which rendering and has_impl do not
     /// terminate; only ids promised before the fault are looked at from here on
     tainted: bool,
+    model_off: bool,
     last_titled_root: Option<Value>,
     latest_delivery: BTreeMap<usize, CallResult>,
     is_variant: bool,
@@ -392,6 +394,7 @@ impl<'d> Session<'d> {
             only_model_acyclic: true,
             extra_schemas: Vec::new(),
             tainted: false,
+            model_off: false,
             last_titled_root: None,
             latest_delivery: BTreeMap::new(),
             is_variant: false,
@@ -843,7 +846,7 @@ impl<'d> Session<'d> {
         }
         if boxes > 0 {
             self.out.probe("state_with_box");
-            if !model_cyclic {
+            if !model_cyclic && !self.model_off {
                 let names: Vec<String> = snaps
                     .values()
                     .filter(|s| s.is_box)
@@ -980,6 +983,7 @@ fn resolve_placeholders(out: &mut Outcome, settings: &SettingsDesc, ops_so_far: 
 fn run_ops_inner(settings: &SettingsDesc, ops: &[Op], faults_mode: bool, attribute: bool) -> Outcome {
     let mut s = Session::new(settings);
     s.is_variant = IS_VARIANT.with(|v| v.get());
+    s.model_off = MODEL_OFF.with(|v| v.get());
     s.out.canary = hashseed::canary();
     for (step, op) in ops.iter().enumerate() {
         let mut digest = 0u64;
@@ -1138,7 +1142,7 @@ fn run_ops_inner(settings: &SettingsDesc, ops: &[Op], faults_mode: bool, attribu
                     }
                 }
                 // ----- I9 -----
-                if was_clean && !poisoned_op && s.out.harness_error.is_none() {
+                if was_clean && !poisoned_op && !s.model_off && s.out.harness_error.is_none() {
                     if !invalid.is_empty() {
                         match &res {
                             CallResult::Ok(_) => {
@@ -1466,7 +1470,9 @@ fn execute_with_progress(desc: &RunDesc, cell: Option<Arc<AtomicU64>>) -> Outcom
     let settings = desc.settings.clone();
     let ops = desc.ops.clone();
     let c = cell.clone();
+    let model_off = desc.model_off;
     let base = hashseed::run_simulated_process(desc.hash_key, desc.decoy, move || {
+        MODEL_OFF.with(|v| v.set(model_off));
         PROGRESS.with(|p| *p.borrow_mut() = c);
         run_ops(&settings, &ops, faults)
     });
@@ -1484,6 +1490,7 @@ fn execute_with_progress(desc: &RunDesc, cell: Option<Arc<AtomicU64>>) -> Outcom
         let ops = v.ops.clone();
         let c = cell.clone();
         let var = hashseed::run_simulated_process(v.hash_key, v.decoy, move || {
+            MODEL_OFF.with(|v| v.set(model_off));
             PROGRESS.with(|p| *p.borrow_mut() = c);
             run_ops_variant(&settings, &ops, faults)
         });
